@@ -40,7 +40,82 @@ TOL = 1e-5  # looser than the solver eps (1e-6): the property does not fix a tol
 # ------------------------------------------------------------------------------------------- generation
 
 
+def _configs(rng, k, plain=False):
+    out = []
+    for _ in range(k):
+        out.append({
+            "warm": "none" if plain else rng.choice(["none", "none", "optimal", "feasible", "zeros", "lp_rounded"]),
+            "heuristics": rng.random() < 0.7, "lns_iterations": 0 if plain else rng.choice([0, 0, 2]),
+            "lns_destroy_frac": 0.3, "solution_limit": 1 if plain else rng.choice([1, 1, 3]), "seed": rng.choice([None, 0, 7]),
+            "gap_tol": None, "rng": seams.gen_rng_case(rng, 0.35, 60), "pick": rng.getrandbits(20)})
+    return out
+
+
+def gen_subset_sum(rng):
+    """A long branch-and-bound run: subset-sum as a 0/1 knapsack (thousands of nodes, tens of thousands of pivots in all)."""
+    n = rng.randrange(12, 19)
+    w = [rng.randrange(1000, 10000) for _ in range(n)]
+    cap = sum(x for x in w if rng.random() < 0.5) if rng.random() < 0.7 else rng.randrange(min(w), sum(w))
+    A = [list(w)] + [[1 if j == i else 0 for j in range(n)] for i in range(n)]
+    b = [max(cap, min(w))] + [1] * n
+    return {"family": "subset_sum", "seq_as": "list", "c": list(w), "A": A, "b": b, "integers": list(range(n)), "minimize": False,
+            "ub": [1] * n, "free_var": None, "configs": _configs(rng, 1, plain=True), "step_limit": 3_000_000_000}
+
+
+def gen_degenerate(rng):
+    """Many rows through the origin (a highly degenerate vertex where ratio tests tie) and one sum row as the only bound."""
+    n = rng.randrange(3, 7)
+    k = rng.choice([2, 3, 3])
+    A, b = [], []
+    for _ in range(rng.randrange(2, 6)):
+        row = [rng.randrange(-9, 10) for _ in range(n)]
+        if any(row):
+            A.append(row)
+            b.append(0)
+    A.append([1] * n)
+    b.append(k)
+    ints = list(range(n))
+    if rng.random() < 0.3:
+        ints.remove(rng.randrange(n))
+    return {"family": "degenerate", "seq_as": rng.choice(["list", "tuple"]), "c": [rng.randrange(-9, 3) for _ in range(n)], "A": A, "b": b,
+            "integers": ints, "minimize": True, "ub": [k] * n, "free_var": None, "configs": _configs(rng, 2)}
+
+
+def shifted(rng, case):
+    """The same program with the integer variables moved far from the origin (x_j = L_j + y_j): values of the order 1e5-1e6
+    with the same fractional parts in the relaxation."""
+    n = len(case["c"])
+    lb = [0] * n
+    for j in case["integers"]:
+        lb[j] = rng.choice([0, 100000, 300000, 1000000, 1000000])
+    if not any(lb):
+        return case
+    A, b = case["A"], case["b"]
+    for i in range(len(A)):
+        b[i] += sum(A[i][j] * lb[j] for j in range(n))
+    for j in range(n):
+        if lb[j]:
+            A.append([-1 if k == j else 0 for k in range(n)])
+            b.append(-lb[j])
+    case["lb"] = lb
+    case["ub"] = [u + l for u, l in zip(case["ub"], lb)]
+    case["family"] = "shifted"
+    return case
+
+
 def generate(rng, tier):
+    y = rng.random()
+    if y < 0.0008:
+        return gen_subset_sum(rng)
+    if y < (0.08 if tier == "quick" else 0.2):
+        return gen_degenerate(rng)
+    case = generate_small(rng, tier)
+    if case["free_var"] is None and rng.random() < 0.08:
+        case = shifted(rng, case)
+    return case
+
+
+def generate_small(rng, tier):
     n = rng.randrange(1, 6)
     kind = rng.choice(["general", "general", "binary", "binary", "unbounded", "knap", "knap", "knap"])
     knap = kind == "knap"
@@ -170,12 +245,20 @@ def reference(case):
     returns {'status': 'UNBOUNDED'}."""
     if case["free_var"] is not None:
         return {"status": "UNBOUNDED"}
+    if case.get("family") == "subset_sum":
+        w, cap = case["c"], case["b"][0]
+        reach = 1
+        for x in w:
+            reach |= reach << x
+        reach &= (1 << (cap + 1)) - 1
+        return {"status": "OPTIMAL", "value": Fraction(reach.bit_length() - 1), "points": []}
     c, A, b, ints, ub = case["c"], case["A"], case["b"], case["integers"], case["ub"]
     n = len(c)
+    lb = case.get("lb") or [0] * n
     cont = [j for j in range(n) if j not in ints]
     best = None
     points = []
-    for vals in itertools.product(*[range(ub[j] + 1) for j in ints]):
+    for vals in itertools.product(*[range(lb[j], ub[j] + 1) for j in ints]):
         fixed = dict(zip(ints, vals))
         rhs = [Fraction(b[i]) - sum(A[i][j] * fixed[j] for j in ints) for i in range(len(A))]
         rows = [[A[i][j] for j in cont] for i in range(len(A))]
@@ -255,7 +338,7 @@ def run_cfg(case, cfg, ref):
     res = exc = None
     exceeded = False
     try:
-        with seams.install_rng(["solvor.milp", "solvor.lns"], plan), budget.steps(STEP_LIMIT):
+        with seams.install_rng(["solvor.milp", "solvor.lns"], plan), budget.steps(case.get("step_limit", STEP_LIMIT)):
             seq = tuple if case.get("seq_as") == "tuple" else list  # Sequences: tuples are as legal as lists
             inp = case.setdefault("_inputs", (seq(case["c"]), seq(seq(r) for r in case["A"]), seq(case["b"]), seq(case["integers"])))
             kw = {"minimize": case["minimize"], "warm_start": warm_start_for(case, cfg, ref), "solution_limit": cfg["solution_limit"],
@@ -360,6 +443,11 @@ def execute(case) -> Outcome:
             res2, exc2, ex2, _ = run_cfg(case, cfg, ref)
             if res2 is None or (res2.status, res2.objective, res2.solution) != (res.status, res.objective, res.solution):
                 o.violate(PROP, "irreproducible", f"config#{k}: two executions with the same seed/entropy differ", target="solve_milp", lns=True, kind="boxed")
+    objs = [v[1] for v in verdicts if v[0] == "OPTIMAL"]
+    if len({v[0] for v in verdicts}) == 1 and objs and max(objs) - min(objs) <= 2e-6 * max(abs(x) for x in objs):
+        # two proven optima may differ by the (relative, default 1e-6) gap_tol each run is entitled to - it only shows on
+        # programs whose objective values are of the order 1e6 (shifted family)
+        verdicts = set(list(verdicts)[:1])
     if len(verdicts) > 1:
         o.violate(PROP, "verdict_depends_on_options", f"proven verdicts differ across option sets / RNG schedules: {sorted(verdicts, key=repr)}",
                   target="solve_milp", lns=any(c["lns_iterations"] for c in case["configs"]), kind="boxed")
@@ -371,6 +459,28 @@ def shrink(case):
     if len(case["configs"]) > 1:
         yield from shr.list_shrinks(case, ("configs",), 1)
     n = len(case["c"])
+    if case.get("family") == "subset_sum":
+        for j in range(n - 1, -1, -1):
+            if n > 2:
+                c = copy.deepcopy(case)
+                del c["c"][j], c["ub"][j], c["A"][1 + j]
+                for row in c["A"]:
+                    del row[j]
+                del c["b"][1 + j]
+                c["integers"] = list(range(n - 1))
+                yield c
+        return
+    if case.get("family") in ("shifted", "degenerate"):
+        for i in range(len(case["A"]) - 1, -1, -1):
+            row = case["A"][i]
+            if case.get("family") == "degenerate" and i == len(case["A"]) - 1:
+                continue
+            if case.get("family") == "shifted" and sum(1 for a in row if a) == 1:
+                continue  # bound rows stay: the reference enumerates the box they describe
+            c = copy.deepcopy(case)
+            del c["A"][i], c["b"][i]
+            yield c
+        return
     box = [i for i, row in enumerate(case["A"]) if sum(1 for a in row if a) == 1 and max(row) == 1 and case["b"][i] == case["ub"][row.index(1)]]
     for i in range(len(case["A"]) - 1, -1, -1):
         if i in box:
